@@ -1219,7 +1219,7 @@ func TestVerif_C01_CanaryScan(t *testing.T) {
 		tx, shamir bool
 	}
 	variants := []variant{{true, false}, {false, true}}
-	n := kit.N(4, 24)
+	n := kit.N(4, 60)
 	for i := 0; i < n; i++ {
 		if i%shards != shard {
 			continue
